@@ -3,6 +3,7 @@ package main
 import (
 	"fmt"
 	"math"
+	"regexp"
 	"strings"
 	"time"
 
@@ -49,7 +50,15 @@ var c01CycleUses = []string{"strfmt(x, \"%v\", w)", "printf(\"%v\\n\", w)", "str
 	"p(w)", "for e in w { p(len(e)) }", "x = w\ntrim(x)", "x = w\nuppercase(x)", "x = w\ncast(x, \"str\")", "printf(\"%s %v %q\\n\", w, w, w)",
 	"x = w\ncast(x, \"int\")", "x = w\ncast(x, \"bool\")", "x = w\ncast(x, \"float\")", "x = w\ndatetime(x, \"s\", \"RFC3339\")", "x = w\nurl_decode(x)",
 	"x = w\nsql_cover(x)", "x = w\ngrok(x, \"%{WORD:q}\")", "x = w\nxml(x, \"/a\", q)", "x = w\ndefault_time(x)", "x = w\nreplace(x, \"a\", \"b\")",
-	"x = w\nset_measurement(x)", "x = w\nq = load_json(x)", "x = w\nrename(y, x)", "x = w\nset_tag(x)", "x = w\nadd_key(x)", "if w { p(1) }", "p(!w, w + 1)", "p(w[0:1], w[0])"}
+	"x = w\nset_measurement(x)", "x = w\nq = load_json(x)", "x = w\nrename(y, x)", "x = w\nset_tag(x)", "x = w\nadd_key(x)", "if w { p(1) }", "p(!w, w + 1)", "p(w[0:1], w[0])",
+	// two DISTINCT values of the same cyclic shape (w2 is built like w, see c01Twin)
+	"p(w == w2)", "p(w != w2, w2 == w)", "p(w in [w2], [w] == [w2])", "p({\"k\": w} == {\"k\": w2}, [0, w2] != [0, w])", "if w == w2 { p(1) }", "x = w == w2\nadd_key(x)",
+	"for e in [w2] { p(e == w, w == e) }", "w[0] = w2\nw2[0] = w\np(w == w2, w2 != w)"}
+
+var c01TwinRe = regexp.MustCompile(`\b(a|b|m|w)\b`)
+
+// c01Twin repeats a construction under other variable names (a2, b2, m2, w2).
+func c01Twin(text string) string { return c01TwinRe.ReplaceAllString(text, "${1}2") }
 
 var c01Subjects = []string{"nil", "true", "7", "-9223372036854775807", "2.5", "nan", `""`, `"text"`, `"héllo wörld"`, `"[1,2"`, `"%41%zz"`,
 	`"<a id='1'><b>x</b><b>y</b></a>"`, `"2021-05-27 06:54:14.760 UTC"`, `"select * from t where id = 1"`, "[1, \"a\", [2]]", `{"k": 1}`, "[]", "void()", `"caf\xc3"`, `"\xe4\xb8"`}
@@ -326,7 +335,11 @@ func (c01) build(c *mon.Ctx, workload string, i int64) (main []*gt.T, lib []*gt.
 	case "self-containing":
 		if i >= 6 {
 			i -= 6
-			text := c01Cycles[int(i)/len(c01CycleUses)] + "\n" + c01CycleUses[int(i)%len(c01CycleUses)] + "\np(\"survived\")\n"
+			cyc, use := c01Cycles[int(i)/len(c01CycleUses)], c01CycleUses[int(i)%len(c01CycleUses)]
+			if strings.Contains(use, "w2") {
+				cyc += "\n" + c01Twin(cyc)
+			}
+			text := cyc + "\n" + use + "\np(\"survived\")\n"
 			o := drive.Parse("cyc", text)
 			if o.Err != nil {
 				panic("c01: cycle program does not parse: " + text)
